@@ -14,6 +14,18 @@ BASELINE_OFF = (
 
 # id -> (level, technique, level text, level note, design ref)
 T = {
+    "C02": (
+        "model_checking",
+        "explicit-state BFS over live Image objects to a fixpoint (full-content hashing), every transition executed on the implementation and decoded through provenance-coded data",
+        "For each root image (2-D/3-D x scalar/vector x 4 time layouts x 2 origins) the search applies every non-empty subregion, time_slice "
+        "and time_interval to every reachable image until no new state appears, so the result covers every nesting depth on these bases; each "
+        "transition is checked against the composed-offset reference (data block, physical coordinate of every voxel corner, time stamps, flags), "
+        "alternative ROI spellings (open-ended slices, voxel corners incl. outside, physical corners at interior offsets and outside) must give "
+        "the identical image, and two histories reaching the same block must give identical content. Series assembly (append/stack, 2..5 images) "
+        "is enumerated as a lattice.",
+        "Trusted: numpy slicing for the reference block; mc.canon.digest for state identity (full content, never coarsened). Base shapes are bounded (quick 3x4 / 2x3x2, thorough 4x5 / 3x4x3, 3 time steps).",
+        "DESIGN.md §3 C02",
+    ),
     "C01": (
         "exploration",
         "exhaustive enumeration of image geometries x every voxel incl. halo x intra-voxel offsets, closed-form affine reference model",
